@@ -360,6 +360,11 @@ def gen_out_and_back_case(rng, labels=("int",)):
         idx.append(k + 2)
     noise = rng.choice([0.0, 0.0, 0.02])
     pts = [[c[main[j]][0] + rng.gauss(0, noise), c[main[j]][1] + rng.gauss(0, noise)] for j in idx]
+    if rng.random() < 0.4:
+        # ... and comes back to a position it was seen at before, bit for bit (a receiver that snaps to a grid)
+        off = [rng.choice([0.0, 0.25, -0.25, 0.75]), rng.choice([0.0, -0.25, 0.5])]
+        pts = [[p[0] + off[0], p[1] + off[1]] for p in pts]
+        pts.append(list(pts[rng.choice([0, 0, 1])]))
     return m, pts
 
 
